@@ -2,6 +2,8 @@
 
 // C09 — validating any chain of parsed certificates never panics (harnesses of C03/C14; an escaped panic is a violation)
 //verif:pkg x509
+// for the bounded inputs of these harnesses no loop of the code under test runs anywhere near 300 iterations: more is a hang
+//verif:terminates github.com/notaryproject/notation-core-go/ 300
 //verif:include ../C03/lemmas.go
 //verif:include ../C03/walk.go
 //verif:include ../C14/walk.go
